@@ -84,6 +84,9 @@ func load(dir string) (*pkgInfo, error) {
 	fset := token.NewFileSet()
 	var files []*ast.File
 	for _, f := range bp.GoFiles {
+		if strings.HasPrefix(f, "verif_") {
+			continue // the verification hooks/shims themselves are not part of the product
+		}
 		af, err := parser.ParseFile(fset, filepath.Join(dir, f), nil, 0)
 		if err != nil {
 			return nil, err
